@@ -14,6 +14,7 @@ C02 line-protocol driver.
 import CaddyModel.Util.Hex
 import CaddyModel.C02.Model
 import CaddyModel.C02.Key
+import CaddyModel.C02.Listen
 import CaddyModel.C02.Quic
 import CaddyModel.C13.Listen
 
@@ -411,7 +412,9 @@ def answerOk (s : State) (a : Addr) (ch : Char) : Bool :=
   else if gs.all (closingGen s a) then
     -- every listener may be closed (and a unix socket's file removed) before the connect
     -- (a connection queued on the socket when its last listener is closed is reset)
-    closedOk || (a.unix && (ch == 'n' || ch == 's'))
+    -- (`unixListener.Close` closes the descriptor first and unlinks the file afterwards: in between the
+    -- file is there and nobody listens — refused; `pathFile` does not see the admin endpoint's file)
+    closedOk || (a.unix && (ch == 'n' || ch == 's' || ch == 'r'))
   else false
 
 def answersOk (s : State) (ans : String) : Bool :=
@@ -583,6 +586,7 @@ def handleKey (listen addr nw host port : String) : String :=
       "ok " ++ hexStr na.network ++ " " ++ hexStr na.host ++ " " ++ toString na.startPort ++ " " ++ toString na.endPort
         ++ " " ++ toString na.size ++ " " ++ hexStr (na.joinHostPort (na.size - 1))
         ++ " " ++ (if adminAddrOk na then "1" else "0")
+        ++ " " ++ hexStr na.str
         ++ (if listen == "L" then
               " " ++ hexStr (na.bookKey 0) ++ " " ++ (if na.usageKey 0 == na.bookKey 0 then "1" else "0")
             else if listen == "F" then
@@ -620,8 +624,88 @@ def handleQuic (ops : String) : String :=
   | some l => if qpOk QPoss.init [] l then " ".intercalate (qOutputs QPoss.init l) else "bad-op"
   | none => "bad-op"
 
+/-! ### `val`: listen entries through Provision / Validate / start (see harness/internal/c02/val.go) -/
+
+def protoTokOk (s : String) : Bool := !s.isEmpty && s.toList.all fun c => c.isLower || c.isDigit
+
+def parseProtoList (placeholder : Bool) (s : String) : Option (List String) :=
+  (s.splitOn "+").mapM fun t =>
+    if placeholder && t == "_" then some "" else if protoTokOk t then some t else none
+
+/-- one entry: the parsed address and its `listen_protocols` entry (`none` = no `#`) -/
+def parseValEntry (s : String) : Option (NetAddr × Option (Option (List String))) :=
+  match s.splitOn "#" with
+  | hx :: rest =>
+    if hx == "-" || hx.isEmpty then none else
+    match Hex.decode hx with
+    | none => none
+    | some bytes =>
+      if Hex.encode bytes != hx || !(bytes.all fun b => 32 ≤ b.toNat && b.toNat < 127) then none else
+      match C13.splitNetworkAddress bytes with
+      | none => none
+      | some (n, h, p) =>
+        match parseAddr (bytesToString n) (bytesToString h) (bytesToString p) with
+        | none => none
+        | some na =>
+          match rest with
+          | [] => some (na, none)
+          | [lp] =>
+            if lp == "n" then some (na, some none)
+            else if lp == "e" then some (na, some (some []))
+            else (parseProtoList true lp).map fun l => (na, some (some l))
+          | _ => none
+  | [] => none
+
+def parseValSrv (s : String) : Option SrvSpec :=
+  match s.splitOn "|" with
+  | [head0, body] =>
+    let extra := head0.endsWith "~"
+    let head := if extra then (head0.dropEnd 1).toString else head0
+    match (if head == "-" then some [] else parseProtoList false head) with
+    | none => none
+    | some protos =>
+      let ents := body.splitOn ","
+      if ents.length > 4 then none else
+      match ents.mapM parseValEntry with
+      | none => none
+      | some es =>
+        let present := extra || es.any fun e => e.2.isSome
+        let lps : List (Option (List String)) := es.map fun e => match e.2 with
+          | some x => x
+          | none => none
+        some ⟨es.map (·.1), protos, if present then some (if extra then lps ++ [none] else lps) else none⟩
+  | _ => none
+
+/-- run-length encoding of a sorted list: `k=n` -/
+def countRuns : List String → List String
+  | [] => []
+  | k :: rest =>
+    match countRuns rest with
+    | [] => [k ++ "=1"]
+    | r :: more =>
+      match r.splitOn "=" with
+      | [k', n] => if k' == k then (k ++ "=" ++ toString (n.toNat! + 1)) :: more else (k ++ "=1") :: r :: more
+      | _ => (k ++ "=1") :: r :: more
+
+def handleVal (mode srvs : String) : String :=
+  let parts := srvs.splitOn ";"
+  if parts.length > 3 then "bad-op" else
+  match parts.mapM parseValSrv with
+  | none => "bad-op"
+  | some ss =>
+    -- the closed form of Validate's key and `JoinNetworkAddress` on the formatted port must agree
+    if (ss.flatMap SrvSpec.sockets).any (fun p => p.1.repeatKey p.2 != p.1.repeatKeyJoined p.2) then "model-incoherent" else
+    match validateApp ss with
+    | .protoRejected => "proto-rejected"
+    | .repeatedAddr => "repeated"
+    | .ok bound =>
+      if mode == "N" then "ok" else
+      let keys := (bound.map hexStr).mergeSort (fun a b => decide (a ≤ b))
+      if keys.isEmpty then "ok -" else "ok " ++ ",".intercalate (countRuns keys)
+
 def handle : List String → String
   | ["quic", ops] => handleQuic ops
+  | ["val", mode, srvs] => if mode == "N" || mode == "L" then handleVal mode srvs else "bad-op"
   | ["key", listen, addr, nw, host, port] => if listen == "L" || listen == "N" || listen == "F" then handleKey listen addr nw host port else "bad-op"
   | ["seq", grace, napps, cfgs, toks, trace] =>
     match parseScenario grace napps cfgs toks with
